@@ -4,6 +4,16 @@ R=$1; ID=$2
 cd /verif
 for d in /tmp/seed$R-$ID-out/m*; do
   [ -f $d/patch.diff ] || continue
-  tools/seedconfirm.sh $ID $d 2>&1 | tail -1
+  if ls $d/*_test.go >/dev/null 2>&1; then
+    tools/seedconfirm.sh $ID $d 2>&1 | tail -1
+  else
+    md=$(dirname $(ls $d/*/main.go 2>/dev/null | head -1) 2>/dev/null)
+    if [ -n "$md" ] && [ -d "$md" ]; then
+      ul=$(grep -ohE 'ulimit -v [0-9]+' $d/README.md | head -1 | awk '{print $3}')
+      tools/seedconfirm_main.sh $ID $d $md $ul 2>&1 | tail -1
+    else
+      echo "NOT-CONFIRMED $ID $(basename $d) no demonstration found"
+    fi
+  fi
   tools/seedcheck.sh $ID $d/patch.diff quick 2>&1 | tail -1
 done
